@@ -202,6 +202,10 @@ def gen_cases(tier, seed):
         cases.append({"id": "protocol-%s" % b, "sig": ["protocol", b], "kind": "protocol", "binding": b, "trunc": 10 if tier == "quick" else 100000})
     cases.append({"id": "metadata", "sig": ["metadata"], "kind": "metadata", "trunc": 10 if tier == "quick" else 100000})
     cases.append({"id": "signed-with-doctype", "sig": ["signed-with-doctype"], "kind": "signed"})
+    if tier == "thorough" and not os.environ.get("VERIF_C11_TRACED"):
+        # the repository's own test suite (with the driver on its PATH, so that the signature tests run too) as one more workload for the
+        # parser-construction monitor: whatever the tests drive, a parser built inside the package is the defused one
+        cases.append({"id": "repo-test-suite-under-parser-monitor", "sig": ["repo-test-suite"], "kind": "suite"})
     if not os.environ.get("VERIF_C11_TRACED"):
         # the same signed and protocol cases once more in a child process under strace: the operating system's view of the whole process
         # tree, external signature tool included (audit hooks end at the interpreter)
@@ -446,6 +450,8 @@ def run_case(case, ctx):
                 _battery(o, "%s[%s]" % (ep, tag), f, doc, scratch, rng, case["trunc"], text_variants=True)
     elif kind == "strace":
         return run_traced(case, ctx)
+    elif kind == "suite":
+        return run_suite(case, ctx)
     elif kind == "signed":
         # a validly signed response with a DOCTYPE (no entity), a PI and a comment in front: may be accepted, nothing may be fetched,
         # and this is what reaches the parse inside the signature check
@@ -533,6 +539,47 @@ def run_traced(case, ctx):
         uniq.setdefault(v["key"] + v["what"][:120], v)
     return {"outcome": "violations" if viol else "held", "nontrivial": bool(sigs), "violations": list(uniq.values())[:10], "counters": dict(counters), "sigs": sigs,
             "evals": counters["traced_runs"]}
+
+
+def run_suite(case, ctx):
+    import json
+    import shutil
+    import subprocess
+    import sys
+    copy = os.path.join(ctx.scratch, "repo-copy")
+    shutil.rmtree(copy, ignore_errors=True)
+    shutil.copytree(env.REPO, copy, ignore=shutil.ignore_patterns(".git", "*.pyc", "__pycache__"), symlinks=True)
+    bindir = os.path.join(ctx.scratch, "suite-bin")
+    os.makedirs(bindir, exist_ok=True)
+    shutil.copy2(env.XMLSEC, os.path.join(bindir, "xmlsec1"))
+    out = os.path.join(ctx.scratch, "suite-monitor.json")
+    child_env = dict(os.environ, PATH=bindir + os.pathsep + os.environ.get("PATH", ""), PYTHONPATH=env.VERIF + os.pathsep + os.path.join(copy, "src"),
+                     VERIF_SUITE_OUT=out, VERIF_C11_TRACED="1")
+    child_env.pop("VERIF_XMLSEC_LOG", None)
+    try:
+        p = subprocess.run([sys.executable, "-W", "ignore", "-m", "pytest", "-q", "--timeout=900", "-p", "no:cacheprovider", "-p", "vlib.suite_plugin",
+                            "--continue-on-collection-errors", "-o", "addopts=", "tests"], cwd=copy, env=child_env, stdout=subprocess.PIPE, stderr=subprocess.STDOUT,
+                           timeout=3000)
+        tail = p.stdout.decode("utf-8", "replace")[-600:]
+    except subprocess.TimeoutExpired:
+        shutil.rmtree(copy, ignore_errors=True)
+        return {"outcome": "suite-timed-out", "nontrivial": False, "violations": [], "counters": {"suite_timed_out": 1}}
+    shutil.rmtree(copy, ignore_errors=True)
+    if not os.path.exists(out):
+        return {"outcome": "suite-monitor-wrote-nothing", "nontrivial": False, "violations": [], "counters": {"suite_without_result": 1}, "obs": {"tail": tail}}
+    with open(out) as f:
+        res = json.load(f)
+    viol, sigs, counters = [], [], collections.Counter()
+    for c in res["constructions"]:
+        counters["suite_parser_constructions_in_package"] += c["count"]
+        sigs.append(["repo-test-suite", c["site"], c["api"], c["defused"]])
+        if not c["defused"]:
+            viol.append({"key": "C11/non-defused-parser-on-inbound-data", "what": "repository test suite as workload: %d parser(s) built at %s through %s without the defused "
+                         "parser class" % (c["count"], c["site"], c["api"])})
+    counters["suite_tests_collected"] = res.get("tests_collected") or 0
+    return {"outcome": "violations" if viol else "held", "nontrivial": bool(sigs), "violations": viol[:10], "counters": dict(counters), "sigs": sigs,
+            "evals": max(1, counters["suite_parser_constructions_in_package"]), "reached": sorted(set(c["site"] for c in res["constructions"])),
+            "obs": {"pytest_tail": tail[-300:]}}
 
 
 def _battery(o, ep, f, doc, scratch, rng, ntrunc, inner_too=None, text_variants=False):
